@@ -52,7 +52,7 @@ NextTolExact == \/ \E x \in {R(1), R(-1), R(0)} : vec' = Ev("evaluate", [inst |-
                                               [state |-> << << <<1, R(0)>>, <<2, R(3)>>, <<3, R(1)>> >> >>, ids |-> <<7>>] >>])
 \* ---- C05: irrelevant variables of every kind and bound shape are reported nearest to zero -----------------------
 BoundShapes == { <<>>, B(R(-2), R(3)), B(R(1), R(4)), B(R(-5), R(-2)), B(R(2), R(2)), B(NInf, R(-1)), B(R(1), PInf), B(NInf, PInf), B(Zero, PInf), B(<<1,2>>, <<3,2>>) }
-NextIrrelevant == \E k \in {"continuous", "integer", "binary"}, b \in BoundShapes, given \in BOOLEAN :
+NextIrrelevant == \E k \in {"continuous", "integer", "binary", "semi_continuous", "semi_integer"}, b \in BoundShapes, given \in BOOLEAN :
     (k = "binary" => b \in { <<>>, B(Zero, One), B(One, One) }) /\
     vec' = Ev("evaluate", [inst |-> Inst("max", << V(1, "integer", B(R(0), R(2))), V(5, k, b) >>, L(<< T(1, R(1)) >>, Zero),
                                          << C(3, "le", L(<< T(1, R(1)) >>, R(-1))) >>, <<>>, <<>>),
@@ -178,10 +178,10 @@ BinInst(obj, sense, cons, k3) == [Inst(sense, << V(1, "binary", <<>>), V(2, "bin
                                  EXCEPT !.objective = IF obj.kind = "none" THEN <<>> ELSE <<obj>>]
 NextQubo == \E o \in BinObjs, name \in {"pubo", "qubo"} :
               \/ vec' = Ev(name, [inst |-> BinInst(o, "min", <<>>, "binary")])
-              \/ \E bad \in {"max", "cons", "nonbinary"} :
+              \/ \E bad \in {"max", "cons", "integer", "continuous", "semi_integer", "semi_continuous", "unspecified"} :
                    vec' = Ev(name, [inst |-> BinInst(o, IF bad = "max" THEN "max" ELSE "min",
                                                      IF bad = "cons" THEN << C(1, "eq", K(Zero)) >> ELSE <<>>,
-                                                     IF bad = "nonbinary" THEN "integer" ELSE "binary")])
+                                                     IF bad \in {"max", "cons"} THEN "binary" ELSE bad)])
 \* ---- C13: all small slack problems -----------------------------------------------------------------------------------------
 Coefs == {R(-2), R(-1), R(1), <<1,2>>, <<-1,3>>}
 Bx == { B(R(-2), R(-1)), B(R(-1), R(1)), B(R(0), R(2)) }
